@@ -174,7 +174,7 @@ func drawActions(t *rapid.T) []Action {
 				rapid.Map(rapid.IntRange(0, 3999), func(k int) string { return fmt.Sprintf("@%d:%d", k%4, 1+k) }),
 				rapid.SampledFrom([]string{"", "abc", "a:b", "a:b:c:d", "10.9.9.9:1:5", "::", "10.0.0.1:8091"}),
 			).Draw(t, "xid")
-			as = append(as, Action{Kind: "select", Policy: rapid.IntRange(0, 5).Draw(t, "policy"), Xid: xid})
+			as = append(as, Action{Kind: "select", Policy: rapid.SampledFrom([]int{0, 1, 2, 3, 3, 3, 3, 4, 5}).Draw(t, "policy"), Xid: xid}) // (3 = the only policy with state between calls)
 		}
 	}
 	return as
